@@ -371,6 +371,7 @@ def run(ctx):
         ordinary_status(ctx, forest)
         unwritable_everywhere(ctx, forest)
         regex_operands(ctx, forest)
+        regex_generated(ctx, forest)
         fprintf_keeps_file(ctx, forest)
         panic_inventory(ctx)
     finally:
@@ -464,7 +465,24 @@ REGEX_OPERANDS = [("posix-extended", "a{2,1}", False), ("posix-basic", "a\\{2,1\
                   # character classes: twelve names, "[:" closed by ":]"; none of this in emacs
                   ("posix-extended", "[[:word:]]", False), ("posix-basic", "[[:ascii:]]", False), ("grep", "x[[:a]", False), ("sed", "[[:alpha]", False),
                   ("posix-extended", "[[:a]]", False), ("posix-extended", "[[:upper:][:LOWER:]]", False), ("posix-extended", "[[:alpha:][:digit:]_]", True),
-                  ("posix-extended", "[^][:digit:]a]", True), ("emacs", "[[:word:]]", True), ("posix-basic", "[:alpha:]", True), ("posix-extended", "[]:a]", True)]
+                  ("posix-extended", "[^][:digit:]a]", True), ("emacs", "[[:word:]]", True), ("posix-basic", "[:alpha:]", True), ("posix-extended", "[]:a]", True),
+                  # (seventh wave) emacs has no classes, also for where the groups stand; groups of another alternative are not complete; "[." and
+                  # "[=" must be closed and name one character; GNU's posix-basic refuses an interval with nothing to repeat and an interval or "*"
+                  # behind another repetition, its grep takes the former for a brace; a class behind a quoted character
+                  ("emacs", ".*[[:]\\(\\1\\)", False), ("emacs", ".*[[:a:]\\(\\1\\)]", False), ("emacs", ".*[a[:]\\(\\1\\)", False), ("emacs", ".*/[[:a:]\\(b\\)]\\1", True),
+                  ("emacs", ".*\\(a\\)\\|\\1", False), ("emacs", ".*\\(\\(a\\)\\|\\2\\)", False), ("posix-extended", ".*(a)|\\1", False), ("posix-basic", ".*\\(a\\)\\|\\1", False),
+                  ("grep", ".*\\(a\\)\n\\1", False), ("posix-basic", ".*\\(a\\)\n\\1", True), ("posix-extended", "((a)|b)\\2", True), ("posix-extended", "(a|(b))\\2", True),
+                  ("posix-extended", "(a)(b|\\1)\\2", True), ("posix-extended", "(a)[|]\\1", True), ("emacs", "\\(a\\|\\(b\\)\\)\\2", True),
+                  ("posix-extended", ".*[[=]", False), ("emacs", ".*[[=]", False), ("posix-basic", ".*[[.]", False), ("posix-extended", ".*[[=]a{2,1}", False),
+                  ("posix-basic", ".*[[=]x[[:foo]", False), ("emacs", ".*[[=]\\(\\1\\)", False), ("grep", "[a[.]", False), ("posix-extended", "[[.ab.]]", False),
+                  ("posix-extended", "[[=a=]b]", True), ("emacs", "[[.-.]]", True), ("posix-extended", "\\[[=]", True), ("posix-extended", "[[..]]", False),
+                  ("posix-basic", "\\{1,2\\}", False), ("posix-basic", ".*\\(\\{1,2\\}\\)", False), ("sed", ".*a\\|\\{1,2\\}", False), ("posix-basic", ".*a**", False),
+                  ("ed", ".*a\\{1,2\\}*", False), ("posix-basic", "a\\{1\\}\\{2\\}", False), ("posix-basic", "a\\+*", False), ("posix-basic", "a*\\+", True),
+                  ("posix-basic", "\\(*a\\)", True), ("posix-basic", "a\\|*b", True), ("posix-basic", "a\\+\\?", True),
+                  ("grep", ".*\\(\\{2,1\\}\\)", True), ("grep", "\\{2,1\\}", True), ("grep", ".*a\\|\\{2,1\\}", True), ("grep", "a**", True), ("grep", "a\\{1\\}\\{2\\}", True),
+                  ("grep", "a\\{2,1\\}", False), ("grep", "\\(a\\)\\{2,1\\}", False),
+                  ("posix-extended", ".*\\.[[:word:]]", False), ("posix-basic", ".*\\.[[:word:]]", False), ("grep", ".*\\\\[[:ascii:]]", False), ("posix-extended", "\\)[[:word:]]", False),
+                  ("posix-extended", "\\.[[:alpha:]]", True)]
 
 
 def fprintf_keeps_file(ctx, forest):
@@ -511,6 +529,72 @@ def regex_operands(ctx, forest):
                 ctx.violation("find sb -regextype %s %s %r -o -print0: exit %s, %d bytes printed; the operand is %s" % (ty, prim, pat, code, len(out), "valid" if valid else "invalid"),
                               {"property": "C11", "kind": "regex-operand", "regextype": ty, "operand": pat, "primary": prim, "exit": str(code),
                                "stderr": err.decode("utf-8", "replace")[:200], "valid": valid})
+
+
+def regex_generated(ctx, forest):
+    """the malformed stream for -regex: a pattern AST as C17 generates them, printed in one of the syntaxes, with one atom replaced by
+    a piece of text that is invalid by itself wherever it stands (a class name that is none, an unclosed or over-long "[." / "[=", a
+    reversed or over-large interval on its own character, a reference to a ninth group that does not exist, a group never closed) -
+    to be refused with nothing visited - or by a piece that is valid wherever it stands, to be accepted.  Valid and invalid by
+    construction: no reference implementation is consulted."""
+    from props import c17
+    rng = ctx.rng
+
+    def pieces(ty):
+        ext = ty == "posix-extended"
+        lb, rb, lp, rp = ("{", "}", "(", ")") if ext else ("\\{", "\\}", "\\(", "\\)")
+        bad = ["[[.]", "[a[=]", "[[.ab.]]", "[^[=abc=]]", lp + "a", "\\9"]
+        good = ["[[.a.]]", "[[=b=]c]", "[^[.c.]]", "[[.a.]-c]", lp + "a" + rp]
+        if ty != "emacs":
+            bad += ["[[:word:]]", "[[:ascii:]]", "[^[:foo:]x]", "[a[:b]", "[[:ALPHA:]]", "a%s2,1%s" % (lb, rb), "b%s32768%s" % (lb, rb), "c%s1,99999%s" % (lb, rb)]
+            good += ["[[:alpha:]]", "[[:digit:][:upper:]x]", "[^[:space:]]", lp + "a%s1,2%s" % (lb, rb) + rp, lp + "b%s32767%s" % (lb, rb) + rp]
+        else:
+            good += ["[[:word:]]", "[[:foo:]", "a\\{2,1\\}", "[a[:b]"]
+        return bad, good
+
+    def plant(ast, atom):
+        """replace one leaf, chosen at random, by the raw atom"""
+        if ast[0] in ("c", "d", "k", "K"):
+            return ("X", atom)
+        kids = [i for i, x in enumerate(ast) if isinstance(x, tuple)]
+        i = rng.choice(kids)
+        return ast[:i] + (plant(ast[i], atom),) + ast[i + 1:]
+
+    n = 3000 if ctx.thorough else 400
+    cases = []
+    while len(cases) < n:
+        ty = rng.choice(["emacs", "posix-basic", "posix-extended", "grep", "sed"])
+        bad, good = pieces(ty)
+        valid = rng.random() < 0.35
+        atom = rng.choice(good if valid else bad)
+        ast = c17.gen_ast(rng, rng.choice([1, 2, 3]))
+        # a quoted character, a bracket expression or a group in front of it now and then (the scanners skip over those)
+        front = rng.choice([None, ("c", "."), ("k", ["a", "b"]), ("S", ("c", "a")), ("O", ("C", ("c", "a"), ("c", "b")))])
+        ast = plant(ast, atom)
+        if front is not None and rng.random() < 0.6:
+            ast = plant(("C", front, ("c", "a")), atom) if rng.random() < 0.5 else ("C", front, ast)
+        txt = c17.show(ast, ty, nl_alt=rng.random() < 0.2, gnu_ops=rng.random() < 0.5)
+        if txt is None:
+            continue
+        lp = "(" if ty == "posix-extended" else "\\("
+        if atom == "\\9" and txt.count(lp) >= 9:
+            continue
+        cases.append((ty, txt, valid, atom))
+    lines = ["find - %s %s" % (fw.hexs(forest.dir), xc.hexlist([b"sb", b"-maxdepth", b"0", b"-regextype", ty.encode(), b"-regex", txt.encode(), b"-o", b"-print0"]))
+             for ty, txt, valid, atom in cases]
+    bad = []
+    for (ty, txt, valid, atom), line in zip(cases, xc.run_impl(lines)):
+        code, out, err = wc.decode_find(line)
+        ctx.count(("regex-generated", ty, txt), True, ["regex-generated", "valid=%d" % valid, "regextype=" + ty])
+        rejected = code == 1 and out == b"" and err.startswith(b"Error")
+        accepted = code == 0
+        if code in ("panic", "runner-died") or (valid and not accepted) or (not valid and not rejected):
+            bad.append((ty, txt, valid, atom, code, out, err))
+    for ty, txt, valid, atom, code, out, err in bad[:3]:
+        ctx.violation("find sb -regextype %s -regex %r -o -print0: exit %s, %d bytes printed; the pattern holds %r, which is %s wherever it stands"
+                      % (ty, txt, code, len(out), atom, "valid" if valid else "invalid"),
+                      {"property": "C11", "kind": "regex-generated", "regextype": ty, "operand": txt, "planted": atom, "valid": valid, "exit": str(code),
+                       "stderr": err.decode("utf-8", "replace")[:200], "total_disagreements": len(bad)})
 
 
 def panic_inventory(ctx):
